@@ -281,6 +281,7 @@ package util
 //@ ghost var lastInterp float64
 //@ ghost var segLo int
 //@ ghost var segHi int
+//@ ghost var segHit bool
 //@ pure isMinKey(m map[int]float64, k int) bool = k in m && (forall j :: j in m ==> k <= j)
 //@ pure isMaxKey(m map[int]float64, k int) bool = k in m && (forall j :: j in m ==> j <= k)
 //@ pure adjacent(m map[int]float64, a int, b int) bool = a in m && b in m && a < b && (forall j :: j in m ==> j <= a || j >= b)
@@ -296,13 +297,16 @@ package util
 //@   ensures[C06.interp.max] forall k :: isMaxKey(steps, k) && input >= float64(k) ==> same(result, steps[k])
 //@   ensures[C06.interp.at]  forall k :: k in steps && input == float64(k) ==> same(result, steps[k])
 //@   ensures[C06.interp.segment] forall a, b :: adjacent(steps, a, b) && float64(a) < input && input < float64(b) ==> a == segLo && b == segHi
-// (attempted, not counted: the interpolation formula inside a segment, same(result, lerp(...)), does not discharge within the time limit)
+//@   ghostdo segHit := false
+//@   atcall ghost Ratio: segHit := true
+//@   ensures[C06.interp.hit] forall a, b :: adjacent(steps, a, b) && float64(a) < input && input < float64(b) ==> segHit
+//@   ensures[C06.interp.formula] segHit ==> same(result, lerp(steps[segLo], steps[segHi], input, float64(segLo), float64(segHi)))
 //@   requires stepsOK(steps) && fin(input)
 //@   ensures[C06.range] fin(result) && -0.001 <= result && result <= 255.001
 //@   atcall ghost Ratio: segLo := currentX
 //@   atcall ghost Ratio: segHi := nextX
 //@   atcall[C06.segment] Ratio: forall a, b :: adjacent(steps, a, b) && float64(a) < input && input < float64(b) ==> a == currentX && b == nextX
-//@   modifies lastInterp, segLo, segHi
+//@   modifies lastInterp, segLo, segHi, segHit
 //@   loop 1 "for x := range steps"
 //@     invariant len(xValues) == count#1 && arrayOf(xValues) >= old(W) && cap(xValues) >= len(steps) && count#1 <= len(steps)
 //@     invariant forall j :: 0 <= j && j < len(xValues) ==> xValues[j] in visited#1
